@@ -38,6 +38,8 @@ type TStep struct {
 	Same bool   `json:"same_port,omitempty"` // PeerConnect: dial from the peer's fixed port
 	Life int64  `json:"life,omitempty"`
 	Tie  bool   `json:"tie,omitempty"` // ConnectionBind: sent at the very instant the 30 s bind deadline passes
+	// Connect / CreatePermission: the IPv4 peer is named in its IPv4-mapped, family IPv6 spelling
+	Mapped bool `json:"mapped,omitempty"`
 }
 
 // TScript is a TCP-world case.
